@@ -285,3 +285,73 @@ def compile_sequence_equals_fresh(ctx, rule, cases):
         ctx.check(not diff and bool(fresh), rule, f"compilation [{label}]", (str(diff[0]) if diff else "no outcome")[:300],
                   "a rule compiled after other rules in the same process gives what it gives compiled alone")
     return n
+
+
+def observer_chain_rules(ctx, rule_drop, rule_keep):
+    """InstructionObserverConsumer._process_instruction with the two observers an operation can install
+    (RemoveEmptyInstructions first, ValidAddrObserver second): the byte-continuation pseudo instruction (mnemonic 'empty')
+    is dropped - nothing of it reaches the stream - and every other instruction is kept: consume_instruction appends
+    exactly one record for it.  Plus: no instruction observer other than RemoveEmptyInstructions on 'empty' ever
+    returns None (an observer may rewrite an instruction, never remove one)."""
+    from ..models import make_interp
+    from ..values import NONE, EnumV, FALSE, Hole, ListV, Obj, Str
+    p = ctx.p
+    I = make_interp(p)
+    cc, mo = p.find_class("CompleteConsumer"), p.find_class("MatchedObserver")
+    rem, vao, vr, ins = (p.find_class("RemoveEmptyInstructions"), p.find_class("ValidAddrObserver"), p.find_class("ValidAddrRange"),
+                         p.find_class("Instruction"))
+    mode_cls = p.find_class("MatchingSearchMode")
+    T = lambda t: Str((Hole(t, "f", True),))
+    for label, mnemonic, expect_records in (("byte-continuation pseudo instruction", Str.lit("empty"), 0),
+                                            ("ordinary instruction", Str((Hole("MN", "f", True, lambda op, a: False if (op == "eq" and a == "empty") else None),)), 1),
+                                            ("direct call outside the range", Str.lit("call"), 1)):
+        for with_range in (False, True):
+            def thunk(I, mnemonic=mnemonic, with_range=with_range):
+                obs = I.construct(mo, [], {}, None, None)
+                cons = I.construct(cc, [], {"regex_rule": T("REGEX"), "matched_observer": obs, "matching_mode": EnumV(mode_cls, "first_find"),
+                                            "return_only_address": FALSE}, None, None)
+                add = cc.find_method("add_observer")
+                I.call_func(add, [I.construct(rem, [], {}, None, None)], {}, cons, None, None)
+                if with_range:
+                    rng = I.construct(vr, [], {"min_addr": T("MIN"), "max_addr": T("MAX")}, None, None)
+                    I.call_func(add, [I.construct(vao, [rng], {}, None, None)], {}, cons, None, None)
+                inst = I.construct(ins, [], {"addr": T("ADDR"), "mnemonic": mnemonic, "operands": ListV([T("TGT")])}, None, None)
+                I.call_func(cc.find_method("consume_instruction"), [inst], {}, cons, None, None)
+                return cons
+            construct = f"CompleteConsumer.consume_instruction[{label}; observers: RemoveEmptyInstructions{' + ValidAddrObserver' if with_range else ''}]"
+            for path in I.explore(thunk):
+                if path.kind != "return":
+                    if mnemonic.is_concrete() and mnemonic.text() == "call":
+                        continue        # int() of an opaque target may raise: outside this rule
+                    ctx.fail(rule_keep, construct, f"raises {path.exc.type_name}", "consuming an instruction raises")
+                    continue
+                lst = path.value.fields.get("_all_instructions_list")
+                n = len(lst.items) if isinstance(lst, ListV) and lst.absorbed is None else -1
+                ctx.check(n == expect_records, rule_drop if expect_records == 0 else rule_keep, construct,
+                          f"{n} record(s) appended", f"exactly {expect_records} record(s) reach the stream")
+    # no observer removes an instruction
+    for c in [c for m in p.modules.values() for c in m.classes.values()]:
+        meth = c.methods.get("observe_instruction") if hasattr(c, "methods") else None
+        if meth is None or c.name in ("IInstructionObserver",):
+            continue
+
+        def thunk2(I, c=c):
+            kw = {}
+            init = c.find_method("__init__")
+            if init is not None and len(init.node.args.args) > 1:
+                rng = I.construct(vr, [], {"min_addr": T("MIN"), "max_addr": T("MAX")}, None, None)
+                o = I.construct(c, [rng], {}, None, None)
+            else:
+                o = I.construct(c, [], kw, None, None)
+            inst = I.construct(ins, [], {"addr": T("ADDR"), "mnemonic": Str((Hole("MN", "f", True, lambda op, a: None),)), "operands": ListV([T("TGT")])}, None, None)
+            return I.call_func(c.find_method("observe_instruction"), [inst], {}, o, None, None)
+        for path in I.explore(thunk2):
+            if path.kind != "return":
+                continue
+            if path.value is NONE:
+                empty = any("empty" in str(k) and v for k, v, _ in path.conds)
+                ctx.check(c.name == "RemoveEmptyInstructions" and empty, rule_keep, f"{c.name}.observe_instruction",
+                          f"returns None under {[l for l in path.cond_labels()][:3]}"[:200],
+                          "an instruction observer never removes an instruction (only the 'empty' pseudo instruction is removed, by RemoveEmptyInstructions)")
+            else:
+                ctx.ok(rule_keep, f"{c.name}.observe_instruction", "returns an instruction")
